@@ -595,14 +595,17 @@ def desc_xsd(d: Any) -> str:
         return f'<xs:list><xs:simpleType>{desc_xsd(d[1])}</xs:simpleType></xs:list>'
     if d[0] == 'u':
         named = ' '.join('xs:' + m[1] for m in d[1] if m[0] == 'b')
-        # memberTypes come after the anonymous members in the built object (simple_types.py:1078-1113)
+        # XSD {member type definitions}: the memberTypes items in order, THEN the simpleType children
+        # (the pinned code had the children first: finding C02-F15, fixed)
         anon = ''.join(f'<xs:simpleType>{desc_xsd(m)}</xs:simpleType>' for m in d[1] if m[0] != 'b')
         return f'<xs:union{" memberTypes=" + chr(34) + named + chr(34) if named else ""}>{anon}</xs:union>'
     raise ValueError
 
 
 def union_members_in_built_order(d: Any) -> list:
-    return [m for m in d[1] if m[0] != 'b'] + [m for m in d[1] if m[0] == 'b']
+    """order of {member type definitions} for the schema text written by desc_xsd: the types named by
+    memberTypes first, then the anonymous simpleType children (XSD Part 2, 4.1.2 / XSD 1.1 3.16.2)"""
+    return [m for m in d[1] if m[0] == 'b'] + [m for m in d[1] if m[0] != 'b']
 
 
 HEAD = ('<xs:schema xmlns:xs="http://www.w3.org/2001/XMLSchema">\n'
